@@ -445,7 +445,29 @@ def _monotone_rule(chk, prog, G):
                         chk.violation(rule, fn.tu.name, fn.name, "assert-sandbox", n.loc,
                                       "janet_sandbox no longer asserts JANET_SANDBOX_SANDBOX before changing the flags")
                 elif fn.name == "janet_go_thread_subr" and n.op == "=" and rhs.k == "mem" and rhs.field == "argi":
-                    chk.ok(rule, "janet_go_thread_subr: flags taken from the launch message")
+                    # janet_init zeroes the field: the copy has to come after every call of it
+                    target = None
+                    for b in fn.blocks.values():
+                        if any(n is y or n in list(y.walk()) for y in b.elems):
+                            target = b
+                    later = []
+                    if target is not None:
+                        seen_n = False
+                        for y in target.elems:
+                            if n is y or n in list(y.walk()):
+                                seen_n = True
+                            elif seen_n:
+                                later += [c for c in y.walk() if c.k == "call" and c.callee == "janet_init"]
+                        for bid in flow.reachable_from(fn, target.id):
+                            if bid != target.id:
+                                later += [c for y in fn.blocks[bid].elems for c in y.walk() if c.k == "call" and c.callee == "janet_init"]
+                    if later:
+                        chk.violation(rule, fn.tu.name, fn.name, "copy-before-init", n.loc,
+                                      "janet_go_thread_subr stores the flags inherited from the launching thread at %s and calls janet_init() "
+                                      "afterwards (%s), which sets sandbox_flags back to 0: every thread started after sandboxing runs with all "
+                                      "capabilities enabled and may even call sandbox again" % (n.loc, later[0].loc))
+                    else:
+                        chk.ok(rule, "janet_go_thread_subr: flags taken from the launch message, after janet_init")
                 else:
                     chk.violation(rule, fn.tu.name, fn.name, "sandbox_flags", n.loc,
                                   "unexpected write `%s`: disabled capabilities could be re-enabled" % n.text())
